@@ -237,8 +237,10 @@ PROPS["C15"] = {
 
 # ------------------------------------------------------------------------------------------------
 IO_F = ["util::fill_buffer", "util::fill_buffer_bytes", "parsing_reader::BufReadParsing::{read_arr,take_bytes}"]
+CFB_F = ["crypto::sym::encryptor::StreamEncryptorInner::<Aes128,&[u8]>::{read,fill_inner}", "util::fill_buffer"]
 PROPS["C09"] = {
-    "inject": [("src/lib.rs", "c09_io")],
+    "substitutions": [("src/crypto/sym/encryptor.rs", "        8 * 1024\n", "        8\n")],
+    "inject": [("src/lib.rs", "c09_io"), ("src/crypto/sym/encryptor.rs", "c09_cfb")],
     "mem_gb": 12,
     "level_text": "Bounded model checking of the real buffer-filling primitives under a source model whose read sizes and fault "
                   "point are symbolic: the solver shows the result is the same for every fragmentation and that a source error "
@@ -247,7 +249,7 @@ PROPS["C09"] = {
                   "(generators, decryptors) are covered only as far as listed in evidence.",
     "bounds": "data <= 5 bytes; read schedule = 3 symbolic cut sizes in 1..8; fault at call 0..3",
     "outside": "adversarial schedules on long inputs; multiple faults; std::io::copy Interrupted retry; full message reader",
-    "assumptions": [FMT_STUBS, "source model: BufRead/Read over a slice with symbolic per-call window"],
+    "assumptions": [FMT_STUBS, "source model: BufRead/Read over a slice with symbolic per-call window", "c09_cfb_*: sha1::compress::compress and cfb_mode::BufEncryptor::encrypt are no-ops (ciphertext = plaintext; the state machine does not depend on them); AES-128 key schedule real on a fixed key; consumer buffer length concrete per instance; the encryptor's internal buffer_size() scaled 8 KiB -> 8 octets in the checked copy"],
     "harnesses": [
         H("c09_fill_buffer_5_4", "c09_io", "quick", 600, "fill_buffer: 5 bytes of data into a 4-byte buffer under every 3-cut schedule", IO_F, "D=5,N=4"),
         H("c09_fill_buffer_3_4", "c09_io", "quick", 600, "fill_buffer: source shorter than buffer", IO_F, "D=3,N=4"),
@@ -257,6 +259,12 @@ PROPS["C09"] = {
         H("c09_fill_bytes_3_4", "c09_io", "thorough", 900, "fill_buffer_bytes, short source", IO_F, "D=3,N=4"),
         H("c09_read_arr_4", "c09_io", "quick", 600, "read_arr::<4> on 0..5 bytes under every schedule: all-or-error", IO_F, "<=5 bytes"),
         H("c09_take_bytes_3", "c09_io", "quick", 900, "take_bytes(3) on 0..4 bytes under every schedule: all-or-error", IO_F, "<=4 bytes"),
+    ] + [
+        H("c09_cfb_enc_after_prefix_0_b1", "c09_cfb", "quick", 900, "SEIPDv1 stream encryptor, prefix consumed, EMPTY source, consumer buffer 1: read() returns Ok(0) only at end of stream (found F6); concrete instance, the solver's part is reachability of the assertion", CFB_F, "source 0 octets; consumer buffer 1"),
+        H("c09_cfb_enc_after_prefix_0_b4", "c09_cfb", "thorough", 900, "same, consumer buffer 4", CFB_F, "source 0 octets; consumer buffer 4"),
+        H("c09_cfb_enc_after_data_b1", "c09_cfb", "thorough", 900, "last data chunk consumed, source exhausted: next read() delivers MDC octets (22 in total); consumer buffer 1", CFB_F, "consumer buffer 1"),
+        H("c09_cfb_enc_after_data_b4", "c09_cfb", "quick", 900, "same, consumer buffer 4", CFB_F, "consumer buffer 4"),
+        H("c09_cfb_enc_after_mdc", "c09_cfb", "quick", 300, "MDC consumed: read() returns Ok(0), state Done, and stays there", CFB_F, "consumer buffer 1..4"),
     ],
 }
 
